@@ -33,10 +33,26 @@ def record_classes(f):
         n: int
         text: str
         w: float
-    return {"json": JRec, "csv": CRec, "tsv": TRec}
+    @dataclass
+    class CLast(f.CSVRecord):
+        n: int
+        w: float
+        text: str
+
+    @dataclass
+    class TLast(f.TSVRecord):
+        n: int
+        w: float
+        text: str
+    return {"json": JRec, "csv": CRec, "tsv": TRec, "csv_strlast": CLast, "tsv_strlast": TLast}
+
+
+LAST = {0: "trailing blanks  ", 1: "", 2: " \t", 3: "x"}
 
 
 def rec_of(kind, cls, s):
+    if kind.endswith("strlast"):
+        return cls(n=s, w=[0.5, -0.1, 1e-320, 3.0][s % 4], text=LAST[s % 4])
     if kind == "json":
         return cls(n=s, text=TEXTS[s % 4], extra=[s, {"k": TEXTS[(s + 1) % 4], "z": [None, True, 1.5]}])
     return cls(n=s, text=TEXTS[s % 4], w=[0.5, -0.1, 1e-320, 3.0][s % 4])
